@@ -400,21 +400,28 @@ theorem encodeImports_inv {g : GraphVal} {o : Opts} (wf : WF g) (importNodes : L
       simp only [hx, Option.some.injEq] at he hagg
       subst hagg
       -- the import loop
-      let l := (agg'.imports.filter fun e => e.2.kind = .instance) ++ (agg'.imports.filter fun e => ¬ (e.2.kind = .instance))
-      have hlsub : ∀ e ∈ l, e ∈ agg'.imports := by
+      let fixed := agg'.imports.map fun e => (e.1, agg'.fix e.2)
+      let l := (fixed.filter fun e => e.2.kind = .instance) ++ (fixed.filter fun e => ¬ (e.2.kind = .instance))
+      have hlsub : ∀ e ∈ l, ∃ e0 ∈ agg'.imports, e = (e0.1, agg'.fix e0.2) := by
         intro e he'
-        rcases List.mem_append.mp he' with h1 | h1 <;> exact (List.mem_filter.mp h1).1
-      have hA := importAll_ok l (st := {}) (enc := []) [] sync_init (fun _ _ h => by simp [amGet] at h)
-        (fun e he' => hok.ifaceNamed e (hlsub e he')) (fun _ _ _ h => by simp [amGet] at h)
-      generalize hgen : importAll l {} [] = res at he hA
+        have : e ∈ fixed := by
+          rcases List.mem_append.mp he' with h1 | h1 <;> exact (List.mem_filter.mp h1).1
+        obtain ⟨e0, he0, rfl⟩ := List.mem_map.mp this
+        exact ⟨e0, he0, rfl⟩
+      have hA := importAll_ok id l (st := {}) (enc := []) [] sync_init (fun _ _ h => by simp [amGet] at h)
+        (fun e he' => by
+          obtain ⟨e0, he0, rfl⟩ := hlsub e he'
+          exact fun hk => hok.ifaceNamed e0 he0 hk)
+        (fun _ _ _ h => by simp [amGet] at h)
+      generalize hgen : importAll id l {} [] = res at he hA
       obtain ⟨stA, enc⟩ := res
       obtain ⟨fA, hencA⟩ := hA
       simp only [List.nil_append] at hencA
       cases hfi : fillImplicit agg' enc r.implicit stA with
-      | error e => simp [l, hgen, hfi] at he
-      | panic s => simp [l, hgen, hfi] at he
+      | error e => simp [l, fixed, hgen, hfi] at he
+      | panic s => simp [l, fixed, hgen, hfi] at he
       | ok stB =>
-        simp only [l, hgen, hfi] at he
+        simp only [l, fixed, hgen, hfi] at he
         obtain ⟨hGB, hniB, hpkB, hcntB, hitB, himpB⟩ := fillImplicit_spec r.implicit hfi (G stA)
         obtain ⟨hG1, himp1, hpk1, hcnt1, hit1, X, hX, hXm, hXp⟩ := fillExplicit_spec explicit he
         obtain ⟨X', hX', hXk, hXc⟩ := resolveExplicit_spec importNodes hx
@@ -425,7 +432,9 @@ theorem encodeImports_inv {g : GraphVal} {o : Opts} (wf : WF g) (importNodes : L
             Has (G stA) k idx (.imp nm) ∧ ∃ ty, (nm, ty) ∈ agg'.imports ∧ k = ty.kind := by
           intro nm k idx hq
           obtain ⟨h1, ty, hm, hk⟩ := hencA nm k idx hq
-          exact ⟨h1, ty, hlsub _ hm, hk⟩
+          obtain ⟨e0, he0, heq⟩ := hlsub _ hm
+          injection heq with e1 e2
+          exact ⟨h1, e0.2, by rw [e1]; exact he0, by rw [hk, e2]; rfl⟩
         have hnidx : st1.nodeIdx = X := by
           rw [hX, hniB, fA.nodeIdx]; rfl
         have hrimp : r.implicit = g.nodes.flatMap (implicitOfNode g) := by
